@@ -101,4 +101,29 @@ theorem namespace_separator_old_and_fixed :
     fnNameTok true ["ns"] "fn" = "ns.fn" ∧ fnNameTok true ["a", "b"] "fn" = "a.b.fn" ∧ fnNameTok true [] "fn" = fnNameTok false [] "fn" := by
   decide +kernel
 
+
+/-! ### the live state: all five repairs are in /repo -/
+
+/-- the range literal is read as it is written, for EVERY form `* a? (.. b?)?` — the live statement (hooks/C07-fix2.patch is in /repo:
+`Repair.exactHops = true`, tied to the source text by `repairs_as_in_source`) -/
+theorem range_literal_faithful : range_literal_faithful_full := by
+  rcases range_literal_faithful_live with ⟨h, _⟩ | ⟨_, h⟩
+  · exact absurd h (by decide)
+  · exact h
+
+/-- neither refutation witness of C07_full is left -/
+theorem c07_full_witnesses_repaired : ¬ (Repair.chainedLookupRejected = false ∨ Repair.exactHops = false) := by decide
+
+/-- what remains of C07_full: its range half is proved, so the full statement is EQUIVALENT to its tree half — no grammatical, complete,
+error-free tree makes the listener walk meet a silently ignored (visitor, rule) pair. That half is proved on the reachability closure of
+the tables (`active_closed`, `frontier_ok`, `ignored_rules_listed`: the frontier is empty); that every real walk stays inside the
+closure is not proved (it is checked per case: `ignored=[]` for every generated tree). -/
+theorem c07_full_iff_tree_half :
+    C07_full ↔ (∀ t : Tree, t.rootRule = some 0 → t.wf Dawgs.C08.Inst.refs = true → t.conforms Dawgs.C08.Inst.must = true →
+      Dawgs.C08.Inst.E.listenerErrors t = [] → C.ignoredIn t = []) :=
+  ⟨fun h => h.1, fun h => ⟨h, range_literal_faithful⟩⟩
+
+/-- the frontier of silently ignored pairs on the reachability closure is empty now -/
+theorem frontier_empty : C07Witness.frontier = [] := by decide +kernel
+
 end Dawgs.C07.Props
